@@ -33,9 +33,9 @@ func c09Points() [][3]float64 {
 
 func init() {
 	engine.Register(&engine.Check{
-		ID:        "C09",
-		Title:     "Point lookup, zoom change, merge and overlap agree with each other",
-		Technique: "exhaustive choice-tree enumeration (E1) of relational equalities between the library's own operations: all ordered zoom pairs per axis x a point alphabet; IDs x refinements up to 3 levels; no reference model",
+		ID:          "C09",
+		Title:       "Point lookup, zoom change, merge and overlap agree with each other",
+		Technique:   "exhaustive choice-tree enumeration (E1) of relational equalities between the library's own operations: all ordered zoom pairs per axis x a point alphabet; IDs x refinements up to 3 levels; no reference model",
 		Assumptions: []string{"points and indices outside the alphabets, and refinements above 3 levels, are not covered", "oracle is an equation between library results (plus C01/C03/C04/C05 deciding each side separately)"},
 		Phases: func(tier string) []engine.Phase {
 			pts := c09Points()
